@@ -40,8 +40,18 @@
       Rule 4.2 (signature of the authorising server, v8+) is part of signature verification (C03).
   R7. The Ed25519 test "signature matches public key" of rule 4.4.1.7 is the oracle
       `Event.tpiVerified` (trusted base: Ed25519).
+  R8. Positional form of one-property objects. `signedOf` accepts, besides the object
+      `{"signed": x, …}`, the one-element array `[x]` as the value of `content.third_party_invite`,
+      and `publicKeysOf` accepts, besides `{"public_key": k, …}`, the one-element array `[k]` as
+      an entry of `public_keys`. The specification knows only the object forms. The array forms
+      are what a serde-derived `Deserialize` for a struct with a single required field also
+      accepts (a struct may be given as a sequence of its fields), i.e. they are an artefact of the
+      implementation's JSON reader, adopted here so that "unreadable" (R1) means the same on both
+      sides; on these inputs the specification side follows the code, not the specification
+      text. The harness generator produces both array forms (`h-c08/src/gen.rs`), so the agreement on them is checked;
+      that accepting them is *right* is not claimed.
 
-  Nothing here mentions the code under test.
+  Apart from R8, nothing here mentions the code under test.
 -/
 import RumaModel.Model.Event
 import RumaModel.Model.Canonical
@@ -309,7 +319,7 @@ def rule4_3 (v : Nat) (ev : Event) (target : Str) (create : Event) (st : Fetch) 
 def signedOf (tpi : JVal) : Read Obj :=
   let signed := match tpi with
     | .obj o => Obj.get o (bs "signed")
-    | .arr [x] => some x       -- the positional form of a one-property object
+    | .arr [x] => some x       -- the positional form of a one-property object (reading R8)
     | _ => none
   match signed with
   | some (.obj kvs) =>
@@ -329,7 +339,7 @@ def publicKeysOf (c : Obj) : Read (List Str) :=
   let rec many : List JVal → Read (List Str)
     | [] => some []
     | .obj o :: t => (strProp o (bs "public_key")).bind fun k => (many t).map (k :: ·)
-    | .arr [.str k] :: t => (many t).map (k :: ·)
+    | .arr [.str k] :: t => (many t).map (k :: ·)   -- positional form (reading R8)
     | _ => none
   let list : Read (List Str) := match Obj.get c (bs "public_keys") with
     | none => some []
